@@ -229,10 +229,26 @@ def yaml_unit(u, res):
             facts.append(("type-%d: force constants read back as written" % dtype, bool(ok), "force constants read back from phonopy.yaml differ from those written"))
     finally:
         br.uninstall()
+    # transformation matrices: a non-symmetric primitive matrix (base-centred 'C'-type and a generic one) read back as written
+    try:
+        br.install()
+        import phonopy
+        from phonopy.structure.atoms import PhonopyAtoms
+        for label, pm in (("C-centred", [[0.5, 0.5, 0], [-0.5, 0.5, 0], [0, 0, 1]]), ("C-centred (other setting)", [[0.5, -0.5, 0], [0.5, 0.5, 0], [0, 0, 1]])):
+            cell = PhonopyAtoms(symbols=["Si"] * 2, cell=np.diag([4.0, 4.0, 5.0]), scaled_positions=[[0, 0, 0], [0.5, 0.5, 0]]) if label == "C-centred" else \
+                PhonopyAtoms(symbols=["Si"] * 2, cell=np.diag([4.0, 4.0, 5.0]), scaled_positions=[[0, 0, 0], [0.5, 0.5, 0]])
+            php = phonopy.Phonopy(cell, supercell_matrix=[[2, 0, 0], [0, 2, 0], [0, 0, 1]], primitive_matrix=pm)
+            y = PhonopyYaml(); y.set_phonon_info(php)
+            y3 = PhonopyYaml(); y3.read(io.StringIO(str(y)))
+            ok = y3.primitive_matrix is not None and np.abs(np.array(y3.primitive_matrix) - np.array(php.primitive_matrix)).max() < 1e-12 and \
+                np.abs(np.array(y3.supercell_matrix) - np.array(php.supercell_matrix)).max() == 0
+            facts.append(("%s primitive matrix and supercell matrix read back as written" % label, bool(ok), "the primitive/supercell matrices read back from phonopy.yaml differ from those written (%s primitive matrix)" % label))
+    finally:
+        br.uninstall()
     for name, ok, what in facts:
         res.queries.append({"name": name + " [ground fact]", "verdict": "unsat" if ok else "sat", "seconds": 0.0, "nvars": 0, "nontrivial": False, "hash": "ground"})
         if not ok:
-            res.violations.append({"key": "%s:yaml:%s" % (PID, name.split(":")[0] + "_" + name.split(": ")[1][:24].replace(" ", "_")), "what": what, "replay": {}})
+            res.violations.append({"key": "%s:yaml:%s" % (PID, name[:48].replace(" ", "_").replace(":", "")), "what": what, "replay": {}})
     res.twins.append({"name": "yaml twin", "verdict": "sat"})
     res.samples.append({"unit": res.unit, "facts": [f[0] for f in facts]})
     return res
